@@ -418,6 +418,16 @@ trait Sut: Clone + PartialEq + Send + Sync + 'static {
     fn in_domain(_op: Op, _a: &RP<KRef<Self>>, _b: &RP<KRef<Self>>) -> bool {
         true
     }
+    /// every coefficient-mapping API of the type applied with `f` (a map that may send non-zero
+    /// coefficients to zero): (api name, result)
+    fn coeff_mapped(&self, _f: &(dyn Fn(&Self::C) -> Self::C + Sync)) -> Vec<(&'static str, Self)> {
+        vec![]
+    }
+    /// every generator-mapping / filtering API applied with the exponent map `g` (terms may
+    /// merge and cancel) resp. the predicate `keep`: (api name, result, expected-by: 0 = map g, 1 = filter)
+    fn gen_mapped(&self, _g: &(dyn Fn(&Exp) -> Exp + Sync), _keep: &(dyn Fn(&Exp) -> bool + Sync)) -> Vec<(&'static str, Self, u8)> {
+        vec![]
+    }
     fn o_is_zero(&self) -> bool;
     fn o_nterms(&self) -> Option<usize> {
         None
@@ -522,6 +532,15 @@ where
         self.to_string()
     }
     sut_ops!();
+    fn coeff_mapped(&self, f: &(dyn Fn(&R) -> R + Sync)) -> Vec<(&'static str, Self)> {
+        vec![
+            ("PolyBase::map_coeffs", self.map_coeffs(|c| f(c))),
+            ("Lc::map_coeffs", PolyBase::from(self.inner().map_coeffs(|c| f(c)))),
+            ("Lc::into_map_coeffs", PolyBase::from(self.inner().clone().into_map_coeffs(|c| f(&c)))),
+            ("Lc::map", PolyBase::from(self.inner().map(|x, c| (x.clone(), f(c))))),
+            ("Lc::into_map", PolyBase::from(self.inner().clone().into_map(|x, c| (x, f(&c))))),
+        ]
+    }
     fn o_is_zero(&self) -> bool {
         num_traits::Zero::is_zero(self)
     }
@@ -630,6 +649,25 @@ where
         self.to_string()
     }
     sut_ops!();
+    fn coeff_mapped(&self, f: &(dyn Fn(&R) -> R + Sync)) -> Vec<(&'static str, Self)> {
+        vec![
+            ("Lc::map_coeffs", self.map_coeffs(|c| f(c))),
+            ("Lc::into_map_coeffs", self.clone().into_map_coeffs(|c| f(&c))),
+            ("Lc::map", self.map(|x, c| (x.clone(), f(c)))),
+            ("Lc::into_map", self.clone().into_map(|x, c| (x, f(&c)))),
+        ]
+    }
+    fn gen_mapped(&self, g: &(dyn Fn(&Exp) -> Exp + Sync), keep: &(dyn Fn(&Exp) -> bool + Sync)) -> Vec<(&'static str, Self, u8)> {
+        let gg = |x: &Free<i32>| Free(g(&vec![x.0 as i64])[0] as i32);
+        let kk = |x: &Free<i32>| keep(&vec![x.0 as i64]);
+        vec![
+            ("Lc::map_gens", self.map_gens(|x| gg(x)), 0),
+            ("Lc::into_map_gens", self.clone().into_map_gens(|x| gg(&x)), 0),
+            ("Lc::apply(single generator)", self.apply(|x| Lc::from(gg(x))), 0),
+            ("Lc::filter_gens", self.filter_gens(|x| kk(x)), 1),
+            ("Lc::into_filter_gens", self.clone().into_filter_gens(|x| kk(x)), 1),
+        ]
+    }
     fn o_is_zero(&self) -> bool {
         num_traits::Zero::is_zero(self)
     }
@@ -1068,6 +1106,56 @@ where
 
     let clock = std::time::Instant::now();
     let mut laps: Vec<f64> = vec![];
+    // ---- M: coefficient / generator mapping APIs (maps with a kernel, merging generator maps) ---------
+    {
+        // reference-level coefficient maps; each sends some alphabet coefficient to zero
+        let one = KRef::<P>::one();
+        let maps: Vec<(&'static str, Box<dyn Fn(&KRef<P>) -> KRef<P> + Sync>)> = vec![
+            ("c-1", Box::new({ let o = one.clone(); move |c: &KRef<P>| c.sub(&o) })),
+            ("c+1", Box::new({ let o = one.clone(); move |c: &KRef<P>| c.add(&o) })),
+            ("c*c-c", Box::new(|c: &KRef<P>| c.mul(c).sub(c))),
+            ("(c-2)(c+2)", Box::new({ let o = one.clone(); move |c: &KRef<P>| { let two = o.add(&o); c.sub(&two).mul(&c.add(&two)) } })),
+        ];
+        let gmap = |e: &Exp| -> Exp { e.iter().map(|x| x.div_euclid(2)).collect() };
+        let keep = |e: &Exp| -> bool { e.iter().sum::<i64>() % 2 == 0 };
+        let t_m = t_max.min(3);
+        for_each_poly(run, &full, &coeffs, t_m, &|r: &RP<KRef<P>>| {
+            let Some((v, _)) = lib_pair::<P>(r) else { return };
+            let args = || r.show();
+            for (mn, f) in &maps {
+                let exp = RP(r.0.iter().map(|(e, c)| (e.clone(), f(c))).filter(|(_, c)| !c.is_zero()).collect());
+                let flib = |c: &P::C| P::C::from_ref(&f(&c.to_ref()));
+                match catch(|| v.coeff_mapped(&flib)) {
+                    Ok(results) => {
+                        for (api, got) in results {
+                            tick(C::Ev, 1);
+                            px.full(&format!("{api}[{mn}]"), &args, &got, &exp);
+                        }
+                    }
+                    Err(p) => px.fail(&format!("map_coeffs[{mn}]"), &args(), format!("panicked: {p}")),
+                }
+            }
+            let mut eg: BTreeMap<Exp, KRef<P>> = BTreeMap::new();
+            for (e, c) in &r.0 {
+                let k = gmap(e);
+                let nv = eg.remove(&k).map(|x| x.add(c)).unwrap_or_else(|| c.clone());
+                if !nv.is_zero() {
+                    eg.insert(k, nv);
+                }
+            }
+            let eg = RP(eg);
+            let ef = RP(r.0.iter().filter(|(e, _)| keep(e)).map(|(e, c)| (e.clone(), c.clone())).collect());
+            match catch(|| v.gen_mapped(&gmap, &keep)) {
+                Ok(results) => {
+                    for (api, got, which) in results {
+                        tick(C::Ev, 1);
+                        px.full(api, &args, &got, if which == 0 { &eg } else { &ef });
+                    }
+                }
+                Err(p) => px.fail("map_gens/filter_gens", &args(), format!("panicked: {p}")),
+            }
+        });
+    }
     // ---- U + S ---------------------------------------------------------------------------------
     let n_a = count_polys(full.len(), coeffs.len(), t_max);
     for_each_poly(run, &full, &coeffs, t_max, &|r: &RP<KRef<P>>| {
